@@ -51,6 +51,10 @@ HA == INSTANCE HolderAbs WITH nh <- s.nh, nxt <- (s.nextH # NoC), closed <- s.cl
 RefinesHolderAbs == [][HA!NextB(0..N + 3)]_(HA!vars)
 HolderAbsInit == HA!Init
 
+CA == INSTANCE CpAbs WITH nc <- s.nc, nr <- s.nr, sgd <- CpSignedNums(g), rvk <- g.cpRevoked,
+                           bad <- g.badSignCp
+RefinesCpAbs == [][CA!NextB(0..N + 3)]_(CA!vars)
+
 \* C10 at design level: a refused request leaves the abstract state unchanged
 Frame == [][ (last'.ok = FALSE) => (s' = s) ]_<<s, g, last>>
 =============================================================================
